@@ -5,6 +5,7 @@ package main
 
 import (
 	"encoding/json"
+	"strconv"
 	"fmt"
 	"io"
 	"sort"
@@ -303,7 +304,18 @@ func (h *Hist) scan(faults map[int]bool, failDesc map[string]bool) (string, erro
 	}
 	outcome := protect(func() error { return h.ctl.RunOnce() })
 	if time.Now().Unix() != sec {
-		return outcome, errStraddle
+		// the scan straddled a second boundary (slow scans: fleet waits, rebuild sleeps). That only matters
+		// if it stamped a taint with a later second than the one the model is told about.
+		secStr := fmt.Sprint(sec)
+		for _, obj := range h.k8s.store {
+			for _, t := range obj.Spec.Taints {
+				if t.Key == escKey && t.Value != secStr {
+					if v, err := strconv.ParseInt(t.Value, 10, 64); err == nil && v > sec && v <= sec+30 {
+						return outcome, errStraddle
+					}
+				}
+			}
+		}
 	}
 	h.ctl.VerifQuantise(frozen, frozen)
 
